@@ -201,3 +201,66 @@ def build_sim(desc, scheduler=None, network=None, shift=0, order=None, cons_orde
     sim = Simulator(net, sch, q, start_of(desc), period=desc["period"], verbose=False,
                     signals=desc.get("signals"), **simkw)
     return sim, evs
+
+
+def build_site(site, basic=True, **kw):
+    """One of the predefined site networks of the repository (real wiring: three-phase delta loads behind transformers)."""
+    from acnportal.acnsim.network import sites
+    fn = {"caltech": sites.caltech_acn, "jpl": sites.jpl_acn, "office001": sites.office001_acn}[site]
+    return fn(basic_evse=basic, **kw)
+
+
+def describe_network(net):
+    """Network descriptor (the format of gen.rand_network) read from a built network through public accessors. Used only for
+    the predefined sites, whose wiring C16 judges independently against the physical ratings."""
+    import math
+    from acnportal.acnsim.models import FiniteRatesEVSE, DeadbandEVSE
+    stations = []
+    for sid in net.station_ids:
+        e = LAST_SITE_EVSES(net)[sid]
+        if isinstance(e, FiniteRatesEVSE):
+            ed = {"t": "FR", "rates": [float(x) for x in e.allowable_rates]}
+        elif isinstance(e, DeadbandEVSE):
+            ed = {"t": "DB", "end": float(e._deadband_end), "max": float(e.max_rate)}
+        else:
+            ed = {"t": "EVSE", "max": float(e.max_rate), "min": float(e.min_rate)}
+        stations.append({"id": sid, "evse": ed, "voltage": float(net.voltages[sid]), "phase": float(net.phase_angles[sid])})
+    cons = []
+    if net.constraint_matrix is not None:
+        for j, name in enumerate(net.constraint_index):
+            row = net.constraint_matrix[j]
+            cons.append({"name": name, "coeffs": {sid: float(row[i]) for i, sid in enumerate(net.station_ids) if row[i] != 0},
+                         "limit": float(net.magnitudes[j])})
+    return {"stations": stations, "constraints": cons, "tol": None}
+
+
+def LAST_SITE_EVSES(net):
+    return getattr(net, "_EVSEs")
+
+
+def site_scenario(case):
+    """Scenario on a predefined site network: (descriptor, built network). Distinct arrivals and estimated departures."""
+    rng = random.Random(case["seed"])
+    net = build_site(case["site"], case["basic"])
+    nd = describe_network(net)
+    ids = [s_["id"] for s_ in nd["stations"]]
+    k = min(len(ids), rng.randint(12, 30))
+    sessions = []
+    arrivals = rng.sample(range(0, k + 3), k) if case.get("distinct") else [rng.randint(0, 6) for _ in range(k)]
+    used = set()
+    for j, st_ in enumerate(rng.sample(ids, k)):
+        a = arrivals[j]
+        dep = a + rng.randint(5, 14)
+        req = rng.choice([2, 6, 12, 30])
+        est = dep + rng.choice([0, 1, -1, 3])
+        while case.get("distinct") and est in used:
+            est += 1
+        used.add(est)
+        sessions.append({"id": f"v{j}", "station": st_, "arrival": a, "departure": dep, "requested": req, "est_dep": est,
+                         "battery": {"t": rng.choice(["ideal", "l2"]), "cap": req + 20.0, "init": rng.choice([0.0, 10.0]), "maxp": rng.choice([3.3, 6.6, 11]),
+                                     "tsoc": 0.8, "calc": "continuous", "noise": 0}})
+    sd = gen.rand_sorted(rng, sort=case["sort"], algo=case["algo"], inc=1, est=rng.choice(case.get("ests", [None, "rampdown", "fixed"])), seed=rng.randrange(1 << 20))
+    d = {"period": 5, "start": [2020, 6, 1, 7, 0], "network": nd, "sessions": sessions, "recompute": [], "scheduler": sd, "np_seed": 5}
+    return d, net
+
+
